@@ -236,6 +236,13 @@ def check(case):
             incon = 'a later run did not converge'
             break
         res = CMP.compare(sp, case['rules'], ref, r, what=label)
+        if res is not None and res[0] == 'fail' and not res[1].startswith('index/'):
+            # judge the difference against what two executions of the very same fresh model differ by themselves
+            nz = S.run_wntr(c10.build(case), hw_approx=hw, tol=2.5e-9)
+            if nz.exception is not None or not nz.ok:
+                res = ('inconclusive', 'the first run is not reproducible under a solver-tolerance perturbation')
+            else:
+                res = CMP.compare(sp, case['rules'], ref, r, what=label, noise=nz)
         compared += 1
         if res is not None:
             if res[0] == 'inconclusive':
